@@ -42,9 +42,11 @@ Commodities == <<
   [sym |-> "AAPL",  txt |-> P0("AAPL"),         k |-> "word"],
   [sym |-> "A B",   txt |-> P0("\"A B\""),      k |-> "quoted"],
   [sym |-> "дуб 😀", txt |-> P("\"дуб 😀\"", 1), k |-> "quoted"],
-  [sym |-> "hours", txt |-> P0("hours"),        k |-> "lower"] >>
+  [sym |-> "hours", txt |-> P0("hours"),        k |-> "lower"],
+  [sym |-> "401k",  txt |-> P0("\"401k\""),     k |-> "quoted"] >>      \* letters and digits, a digit first: needs its quotes (10 401k reads as a number)
 
-Descriptions == << P0("grocery store"), P0("rent"), P("café 😀 bar", 1), P0("покупка"), P0("lunch at joe's"), P0("x") >>
+Descriptions == << P0("grocery store"), P0("rent"), P("café 😀 bar", 1), P0("покупка"), P0("lunch at joe's"), P0("x"),
+                   P0("the annual general meeting of the allotment garden society of the old town") >>   \* 74 characters
 TriggerDescriptions == <<
   [p |-> P0("ATM withdrawal"), trig |-> "desc-first-word-all-caps"],
   [p |-> P0("7eleven"),        trig |-> "desc-leading-digit"],
@@ -58,7 +60,8 @@ Codes  == << P0("123"), P0("INV-7"), P0("é1") >>
 Tags   == << [n |-> "type", v |-> P0("food")], [n |-> "project", v |-> P0("x y")], [n |-> "date", v |-> P0("2024-01-02")],
              [n |-> "memo", v |-> P0("été")], [n |-> "flag", v |-> P0("")], [n |-> "who", v |-> P("me😀", 1)],
              [n |-> "time", v |-> P0("12:30")],          \* a value may contain colons: the name ends at the FIRST colon
-             [n |-> "place", v |-> P0("food")] >>        \* the same value under two names (type:food, place:food)
+             [n |-> "place", v |-> P0("food")],          \* the same value under two names (type:food, place:food)
+             [n |-> "area", v |-> P0("north"), gap |-> 1] >>   \* a blank after the colon: "area: north"
 FreeTexts == << P0("note"), P0(" spaced  text "), P("😀", 1), P0("paid in cash") >>
 
 (* ---- numbers ------------------------------------------------------------------------------- *)
@@ -167,7 +170,8 @@ RenTags(st, tags, i) ==
     ELSE LET t  == Tags[tags[i]]
              s1 == IF i = 1 THEN st ELSE Lit(st, ", ", "")
              s2 == Lit(s1, t.n \o ":", "tagname")
-             s3 == IF t.v.s = "" THEN s2 ELSE Put(s2, t.v, "tagvalue")
+             \* blanks between the colon and the value belong to neither ("area: north")
+             s3 == IF t.v.s = "" THEN s2 ELSE Put(IF "gap" \in DOMAIN t THEN Sp(s2, t.gap) ELSE s2, t.v, "tagvalue")
          IN RenTags(s3, tags, i + 1)
 RenComment(st, c) ==
     LET start == Len(st.s)
